@@ -2367,6 +2367,22 @@ def scribble(o, depth=0, part="all"):
                 pass
 
 
+def canon_result(o, depth=0):
+    """content of a returned object, independent of axis order (the axis order of a factor is representation)"""
+    if hasattr(o, "state_names") and hasattr(o, "values") and hasattr(o, "variables"):
+        vals = np_values(o.values)
+        out = []
+        for idx in itertools.product(*[range(x) for x in vals.shape]):
+            out.append((tuple(sorted((repr(v), repr(o.state_names[v][idx[ax]])) for ax, v in enumerate(o.variables))),
+                        float(vals[idx])))
+        return ("factor", type(o).__name__, repr(getattr(o, "variable", None)), sorted(out))
+    if isinstance(o, dict) and depth < 3:
+        return ("dict", sorted((repr(k), canon_result(v, depth + 1)) for k, v in o.items()))
+    if isinstance(o, list) and depth < 3:
+        return ("list", [canon_result(v, depth + 1) for v in o])
+    return snap(o)
+
+
 def run_resindep(case, drv):
     import numpy as np
     from pgmpy.factors.discrete import TabularCPD, DiscreteFactor
@@ -2474,7 +2490,7 @@ def run_resindep(case, drv):
         leaks = []
         try:
             r1 = f()
-            pristine = snap(r1)
+            pristine = canon_result(r1)
             for part in ("values", "state_names", "structure"):
                 scribble(r1, part=part)
                 if w.diff():
@@ -2492,9 +2508,10 @@ def run_resindep(case, drv):
                        key=key, tags=tags + ["diag:aliases-" + leaks[0]])
         if r2 is r1:
             return bad("result-aliases-source", {"call": call, "what": "the same object is returned twice"}, key=key, tags=tags)
-        if snap(r2) != pristine and call not in ("sample", "simulate"):
+        if canon_result(r2) != pristine and call not in ("sample", "simulate"):
             return bad("not-repeatable", {"call": call, "what": "second result differs after the first was edited",
-                                          "first": str(pristine)[:300], "second": str(snap(r2))[:300]}, key=key, tags=tags)
+                                          "first": str(pristine)[:300], "second": str(canon_result(r2))[:300]},
+                       key=key, tags=tags)
     if not backend_clean():
         return bad("backend-not-restored", {}, key=key, tags=tags)
     return ok(True, key, tags)
